@@ -482,3 +482,17 @@ def h3(ctx: Ctx) -> None:
 
     n = check_no_carry_over(ctx)
     ctx.require(n >= 3, "expansion loops not found")
+
+
+@rule("C09.H4", "mechanism shared with C13: the step hooks (through which a rule that suspended execution restores it) run at every step of every session, whatever the session prints", "T4 (the step part of C13.R3)", floor=1)
+def h4(ctx: Ctx) -> None:
+    from .c13 import check_call_sites
+
+    check_call_sites(ctx, {"step"})
+
+
+@rule("C09.H5", "mechanism shared with C13: every hook an event declares is entered in the table (a second hook of the same event for another market is not taken for a duplicate)", "T3 (same rule as C13.R4)", floor=3)
+def h5(ctx: Ctx) -> None:
+    from .c13 import r4 as registration_rule
+
+    registration_rule(ctx)
